@@ -240,7 +240,7 @@ def eval_case(ctx, case):
             ctx.violation("collect:not-at-end", "with footnote_sort the definitions are not all at the end of the document", case, detail)
         else:
             labs = [f[0].astext() for f in all_f if len(f) and isinstance(f[0], nodes.label)]
-            if labs != sorted(labs, key=lambda s: (0, int(s)) if s.isdigit() else (1, s)):
+            if labs != sorted(labs, key=lambda s: (0, int(s), "") if s.isascii() and s.isdigit() else (1, 0, s)):
                 ctx.violation("collect:order", f"collected footnotes are in label order {labs}", case, detail)
             others = kids[: len(kids) - len(all_f)]
             want_t = 1 if (trans and all_f and others) else 0
@@ -276,11 +276,11 @@ def eval_case(ctx, case):
 
 # ------------------------------------------------------------------------------------------- workload
 
-LABELS = ["a", "b", "c", "note-x", "1", "2", "10", "Z"]
+LABELS = ["a", "b", "c", "note-x", "1", "2", "10", "Z", "05", "007", "3", "d", "e", "f", "g", "h", "k"]  # zero-padded numbers are numbers
 
 
 def make_case(R):
-    pool = R.sample(LABELS, R.randint(1, 6))
+    pool = R.sample(LABELS, R.randint(1, 6) if R.random() < 0.85 else R.randint(9, 14))
     items = []
     defs = []
     for lab in pool:
